@@ -51,7 +51,9 @@ class C07(Prop):
     assumptions = ["labels unique, NaN-free, one kind per axis; requested labels of the axis' kind family"]
 
     def mirrors(self):
-        from dimarray.core import align, indexing, dimarraycls, axes
+        import sys as _s
+        from dimarray.core import indexing, dimarraycls, axes
+        align = _s.modules['dimarray.core.align']
         return {"reindex_axis": align.reindex_axis, "reindex_like": align.reindex_like,
                 "locate_many": indexing.locate_many, "take_axis": dimarraycls.DimArray.take_axis,
                 "Axis.take": axes.Axis.take, "Axis.__setitem__": axes.Axis.__setitem__,
